@@ -21,12 +21,24 @@ B = hlib.bounds()
 EXCLUDED = []
 NOTES = list(L.NOTES)
 
+
+def _enc(owner, *names):
+    """record the named functions of `owner` that exist (a refactor may rename or inline private helpers: a missing name
+    must not take every obligation down at import)"""
+    for n in names:
+        f = getattr(owner, n, None) if not isinstance(owner, dict) else owner.get(n)
+        if f is not None:
+            try:
+                hlib.encoded(f)
+            except hlib.HarnessError:
+                pass
+
+
 hlib.encoded(hs.read_range, hs._ReadRangeProducer.resumeProducing, hs._ReadRangeProducer.stopProducing,
              hs.HTTPServer.read_share_chunk, hs.HTTPServer.read_mutable_chunk, hs.HTTPServer.list_shares,
              hs.HTTPServer.enumerate_mutable_shares,
              hc.read_share_chunk, hc.StorageClientImmutables.read_share_chunk, hc.StorageClientImmutables.list_shares,
-             hc.StorageClientImmutables._list_shares, hc.StorageClientMutables.read_share_chunk,
-             hc.StorageClientMutables.list_shares, hc.StorageClientMutables._list_shares,
+             hc.StorageClientMutables.read_share_chunk, hc.StorageClientMutables.list_shares,
              sc._HTTPStorageServer.get_buckets, sc._HTTPBucketReader.read, sc._HTTPStorageServer.slot_readv,
              sc._FakeRemoteReference.callRemote, sc._StorageServer.get_buckets, sc._StorageServer.slot_readv,
              server_mod.FoolscapStorageServer.remote_get_buckets, server_mod.FoolscapStorageServer.remote_slot_readv,
@@ -211,11 +223,14 @@ def _h_read_mutable(dl, elo, has2, mode, nv, o1, l1, o2, l2, p):
 # ---- chunked immutable uploads ----------------------------------------------------------------------------------------
 hlib.encoded(hs.HTTPServer.allocate_buckets, hs.HTTPServer.write_share_data, hs.UploadsInProgress.add_write_bucket,
              hs.UploadsInProgress.get_write_bucket, hs.UploadsInProgress.remove_write_bucket, hs.UploadsInProgress.validate_upload_secret,
-             hc.StorageClientImmutables.create, hc.StorageClientImmutables._create, hc.StorageClientImmutables.write_share_chunk,
-             hc.StorageClientImmutables._write_share_chunk, sc._HTTPStorageServer.allocate_buckets, sc._HTTPBucketWriter.write,
+             hc.StorageClientImmutables.create, hc.StorageClientImmutables.write_share_chunk,
+             sc._HTTPStorageServer.allocate_buckets, sc._HTTPBucketWriter.write,
              sc._HTTPBucketWriter.close, sc._StorageServer.allocate_buckets, server_mod.FoolscapStorageServer.remote_allocate_buckets,
              imm.FoolscapBucketWriter.remote_write, imm.FoolscapBucketWriter.remote_close, imm.BucketWriter.write,
-             imm.BucketWriter.close, imm.BucketWriter._is_finished, imm.BucketWriter.required_ranges, X.SS.allocate_buckets)
+             imm.BucketWriter.close, imm.BucketWriter.required_ranges, X.SS.allocate_buckets)
+_enc(hc.StorageClientImmutables, "_create", "_write_share_chunk", "_list_shares")
+_enc(hc.StorageClientMutables, "_list_shares", "_read_test_write_chunks")
+_enc(imm.BucketWriter, "_is_finished")
 
 
 class _Canary(object):
@@ -426,12 +441,10 @@ def _h_upload(size, n, o1, l1, o2, l2, b2, o3, l3, b3, has1, p):
 
 # ---- read-test-write ------------------------------------------------------------------------------------------------------
 # (the log statements of _evaluate_test_vectors/_evaluate_write_vectors, which format the symbolic vectors, are cut in _httploop.py)
-hlib.encoded(hs.HTTPServer.mutable_read_test_write, hc.StorageClientMutables.read_test_write_chunks,
-             hc.StorageClientMutables._read_test_write_chunks, hc.TestWriteVectors.asdict,
+hlib.encoded(hs.HTTPServer.mutable_read_test_write, hc.StorageClientMutables.read_test_write_chunks, hc.TestWriteVectors.asdict,
              sc._HTTPStorageServer.slot_testv_and_readv_and_writev, sc._StorageServer.slot_testv_and_readv_and_writev,
-             server_mod.FoolscapStorageServer.remote_slot_testv_and_readv_and_writev, X.SS.slot_testv_and_readv_and_writev,
-             X.SS._collect_mutable_shares_for_storage_index, X.SS._evaluate_read_vectors,
-             X.SS._add_or_renew_leases, X.SS._make_lease_info)
+             server_mod.FoolscapStorageServer.remote_slot_testv_and_readv_and_writev, X.SS.slot_testv_and_readv_and_writev)
+_enc(X.SS, "_collect_mutable_shares_for_storage_index", "_evaluate_read_vectors", "_add_or_renew_leases", "_make_lease_info", "_iter_share_files")
 
 _ZREC = X.FStruct.pack(">LL32s32s20s", 0, 0, b"\x00" * 32, b"\x00" * 32, b"\x00" * 20)
 
@@ -708,9 +721,10 @@ def _h_rtw_marshalling(shape, answer, to0, ts0, to1, ts1, wo0, wo1, nl0, nl1, ro
 
 
 # ---- share listing and lease addition ------------------------------------------------------------------------------------
-hlib.encoded(hs.HTTPServer.add_or_renew_lease, hc.StorageClientGeneral.add_or_renew_lease, hc.StorageClientGeneral._add_or_renew_lease,
+_enc(hc.StorageClientGeneral, "_add_or_renew_lease")
+hlib.encoded(hs.HTTPServer.add_or_renew_lease, hc.StorageClientGeneral.add_or_renew_lease,
              sc._HTTPStorageServer.add_lease, sc._StorageServer.add_lease, server_mod.FoolscapStorageServer.remote_add_lease,
-             X.SS.add_lease, X.SS._iter_share_files)
+             X.SS.add_lease)
 
 
 def _lease_state(mutable, have0, have2, junk, dlen, elo, renewing):
@@ -976,7 +990,214 @@ def _h_client_read_chunk(code_k, ct, cr, start, stop, blen, offset, length, muta
     return True
 
 
+
+# ---- the upload route on its own (recording bucket, integers unbounded) ---------------------------------------------------------
+
+class _RecBucket(object):
+    """what HTTPServer.write_share_data uses of BucketWriter: write / close / required_ranges"""
+
+    def __init__(self, fin_at, conf_at, r0, r1):
+        self.writes = []
+        self.closed = 0
+        self.fin_at, self.conf_at, self.r0, self.r1 = fin_at, conf_at, r0, r1
+
+    def write(self, offset, data):
+        i = len(self.writes)
+        if i == self.conf_at:
+            raise imm.ConflictingWriteError("Chunk doesn't match already written data.")
+        self.writes.append((offset, data))
+        return i >= self.fin_at
+
+    def close(self):
+        self.closed += 1
+
+    def required_ranges(self):
+        m = imm.RangeMap()
+        m.set(True, self.r0, self.r1)
+        return m
+
+
+def h_server_write_chunk(kind: int, offset: int, ln: int, fin_at: int, conf_at: int, r0: int, r1: int, p: int) -> bool:
+    """
+    pre: 0 <= kind <= 2 and 0 <= offset and 1 <= ln <= B["body_max"] and 0 <= fin_at <= 4 and 0 <= conf_at <= 4 and 0 <= r0 < r1 and 0 <= p
+    post: _ == True
+    """
+    return X.guard(_h_server_write_chunk, kind, offset, ln, fin_at, conf_at, r0, r1, p)
+
+
+def _h_server_write_chunk(kind, offset, ln, fin_at, conf_at, r0, r1, p):
+    kind, fin_at, conf_at = _pin(kind, 0, 2), _pin(fin_at, 0, 4), _pin(conf_at, 0, 4)
+    X.reset()
+    w = World()
+    bucket = _RecBucket(fin_at, conf_at, r0, r1)
+    secret = b"upload-secret-0123456789"
+    w.http_server._uploads.add_write_bucket(X.SI, 0, secret, bucket)
+    data = ProvBuf.src("up", ln, 0)
+    ic = hc.StorageClientImmutables(w.client)
+    if kind == 0:
+        out = _outcome(ic.write_share_chunk(X.SI, 0, secret, offset, data))
+    else:
+        hdrs = L.Headers()
+        if kind == 1:
+            hdrs.setRawHeaders("content-range", [L.SymContentRange("lines", offset, offset + ln).to_header()])
+        url = w.client.relative_url("/storage/v1/immutable/%s/0" % ("a" * 26,))
+        out = _outcome(w.client.request("PATCH", url, upload_secret=secret, data=data, headers=hdrs))
+    if kind != 0:
+        if out[0] != "ok" or out[1].code != hs.http.REQUESTED_RANGE_NOT_SATISFIABLE or bucket.writes or bucket.closed:
+            return "a PATCH without a byte Content-Range must be refused with 416 and write nothing"
+        return True
+    # independent statement: the body is applied in order, in pieces of at most 65536 bytes, until a piece is refused
+    npieces = 0
+    rest = ln
+    while rest > 0:
+        npieces += 1
+        rest = rest - (65536 if rest > 65536 else rest)
+    conflict = conf_at < npieces
+    applied = conf_at if conflict else npieces
+    if len(bucket.writes) != applied:
+        return "number of pieces written to the bucket"
+    pos = offset
+    body = ProvBuf()
+    for (o, d) in bucket.writes:
+        if o != pos or len(d) < 1 or len(d) > 65536:
+            return "pieces must be contiguous from the announced offset and at most 65536 bytes long"
+        pos = pos + len(d)
+        body = body + d
+    if not conflict and pos != offset + ln:
+        return "the pieces do not cover the announced range"
+    if p < len(body) and body.at(p) != ("up", p):
+        return "the pieces are not the request body in order"
+    if conflict:
+        if out[0] != "err" or not isinstance(out[1], hc.ClientException) or out[1].code != hs.http.CONFLICT or bucket.closed:
+            return "a conflicting piece must end the request with 409 (no close)"
+        return True
+    if out[0] != "ok":
+        return "well-formed chunk refused"
+    finished = (npieces - 1) >= fin_at           # what the bucket said about the LAST piece
+    if out[1].finished != finished:
+        return "the client must see finished == the bucket's answer for the last piece"
+    if bucket.closed != (1 if finished else 0):
+        return "the bucket must be closed exactly when the upload is finished"
+    req = out[1].required
+    if (req.get(p) is not None) != (r0 <= p < r1):
+        return "`required` seen by the client is not the bucket's required_ranges()"
+    return True
+
+
+# ---- the untouched header text path (real werkzeug Range / ContentRange / parsers), small pinned integers -------------------------
+
+def _with_real_headers(fn, *args):
+    """fn(*args) with the real werkzeug classes and parsers back in http_client / http_server; every input is a plain int by now
+    (pinned), so the run is concrete and executes with tracing switched off"""
+    L.install_real_headers()
+    try:
+        with L.NoTracing():
+            for a in args:
+                if type(a) not in (int, bool):
+                    raise hlib.HarnessError("harness: unpinned value in the concrete text-path run")
+            return fn(*args)
+    finally:
+        L.install_header_standins()
+
+
+def h_read_strings(mutable: bool, dlen: int, off: int, ln: int) -> bool:
+    """
+    pre: 0 <= dlen <= B["d_max"] and 0 <= off <= B["d_max"] + 1 and 0 <= ln <= B["l_max"]
+    post: _ == True
+    """
+    return X.guard(_h_read_strings, mutable, dlen, off, ln)
+
+
+def _h_read_strings(mutable, dlen, off, ln):
+    mutable = bool(mutable)
+    dlen, off, ln = _pin(dlen, 0, B["d_max"]), _pin(off, 0, B["d_max"] + 1), _pin(ln, 0, B["l_max"])
+    assume(("zero-length-read" if ln == 0 else "other") not in EXCLUDED)
+    return _with_real_headers(_read_strings_concrete, mutable, dlen, off, ln)
+
+
+def _read_strings_concrete(mutable, dlen, off, ln):
+    got = {}
+    for name in ("http", "direct"):
+        if mutable:
+            _mut_state(dlen, DATA_OFFSET + dlen + 3, False)
+            w = World()
+            out = _outcome(getattr(w, name).slot_readv(X.SI, [0], [(off, ln)]))
+            if out[0] == "ok":
+                out = ("ok", out[1][0][0])
+        else:
+            _imm_state(dlen, 1, False)
+            w = World()
+            readers = fired(getattr(w, name).get_buckets(X.SI))
+            out = _outcome(readers[0].callRemote("read", off, ln))
+        got[name] = out
+        if name == "http":
+            texts = [r.requestHeaders.getRawHeaders("range") for r in w.loop.requests if r.requestHeaders.hasHeader("range")]
+            want_text = ["bytes=%d-%d" % (off, off + ln - 1)]
+            if ln > 0 and texts != [want_text]:
+                return "Range header text is not 'bytes=first-last' for [offset, offset+length): %r" % (texts,)
+            for r in w.loop.requests:
+                cr = r.responseHeaders.getRawHeaders("content-range")
+                end = off + ln if off + ln < dlen else dlen
+                if cr is not None and cr != ["bytes %d-%d/*" % (off, end - 1)]:
+                    return "Content-Range text is not 'bytes first-last/*' of the bytes sent: %r" % (cr,)
+    if got["direct"][0] != "ok":
+        return "direct read failed"
+    want = _clip(dlen, off, ln)
+    gd = got["direct"][1]
+    if len(gd) != want or (want and gd.render({"old": bytes(range(64))}) != bytes(range(64))[off:off + want]):
+        return "direct read returned the wrong bytes"
+    if got["http"][0] != "ok":
+        return "read through HTTP (real header text) failed where the direct read succeeds"
+    gh = got["http"][1]
+    if len(gh) != want or (want and gh.render({"old": bytes(range(64))}) != bytes(range(64))[off:off + want]):
+        return "read through HTTP (real header text) returned different bytes than the direct read"
+    return True
+
+
+def h_upload_strings(size: int, o1: int, l1: int, o2: int, l2: int, b2: bool) -> bool:
+    """
+    pre: 1 <= size <= B["d_max"] and 0 <= o1 <= B["d_max"] and 0 <= l1 <= B["l_max"] and 0 <= o2 <= B["d_max"] and 0 <= l2 <= B["l_max"]
+    post: _ == True
+    """
+    return X.guard(_h_upload_strings, size, o1, l1, o2, l2, b2)
+
+
+def _h_upload_strings(size, o1, l1, o2, l2, b2):
+    size, o1, o2 = _pin(size, 1, B["d_max"]), _pin(o1, 0, B["d_max"]), _pin(o2, 0, B["d_max"])
+    l1, l2 = _pin(l1, 0, B["l_max"]), _pin(l2, 0, B["l_max"])
+    b2 = bool(b2)
+    assume(_cls_upload(size, _chunks(2, o1, l1, o2, l2, b2, 0, 1, False)) not in EXCLUDED)
+    return _with_real_headers(_upload_strings_concrete, size, o1, l1, o2, l2, b2)
+
+
+def _upload_strings_concrete(size, o1, l1, o2, l2, b2):
+    chunks = _chunks(2, o1, l1, o2, l2, b2, 0, 1, False)
+    verdicts, accepted = _model_upload(size, chunks)
+    for i in range(1, len(verdicts)):
+        if _union_len([(o, o + l) for (o, l, _t) in accepted[:i]]) == size:
+            hlib.assume(False)                      # nothing is sent after completion (see h_upload)
+    complete = len(accepted) == 2 and _union_len([(o, o + l) for (o, l, _t) in accepted]) == size
+    (alloc_h, outs_h, closed_h, vis_h, rec, snap_h) = _upload("http", size, chunks, False, True)
+    (alloc_d, outs_d, closed_d, vis_d, _r, snap_d) = _upload("direct", size, chunks, False, complete)
+    if alloc_h != alloc_d:
+        return "allocate_buckets differs (real text path)"
+    if [o[0] for o in outs_h] != [o[0] for o in outs_d] or [o[0] == "ok" for o in outs_d] != [v == "ok" for v in verdicts]:
+        return "chunks accepted/refused differently with real Content-Range text"
+    for i in range(len(accepted)):
+        fin = _union_len([(o, o + l) for (o, l, _t) in accepted[:i + 1]]) == size
+        if rec.progress[i].finished != fin:
+            return "finished flag wrong (real text path)"
+    if (closed_h is True) != complete or vis_h != vis_d:
+        return "completion / visibility differs (real text path)"
+    bad = same_state(snap_h, snap_d)
+    if bad:
+        return "server state differs (real text path): " + bad
+    return True
+
+
 CLASSIFY = {
+    "h_read_strings": lambda mutable, dlen, off, ln: "zero-length-read" if ln == 0 else "other",
+    "h_upload_strings": lambda size, o1, l1, o2, l2, b2: _cls_upload(size, _chunks(2, o1, l1, o2, l2, b2, 0, 1, False)),
     "h_upload": lambda size, n, o1, l1, o2, l2, b2, o3, l3, b3, has1, p: _cls_upload(size, _chunks(
         B["n"], o1, l1, o2, l2, bool(B["conflict"]) if B.get("conflict") is not None else b2, o3, l3,
         (bool(B["conflict"]) and B["n"] >= 3 and b3) if B.get("conflict") is not None else b3)),
